@@ -31,6 +31,11 @@ type Check struct {
 
 	obs   []*Ob
 	byKey map[string]*Ob
+	// arch is the GOARCH of the program being analysed; Archs lists all programs this check was decided on
+	// (quick: the default one; thorough: amd64, 386, arm64). Verdicts are merged per key: bad on any arch is bad.
+	arch      string
+	Archs     []string
+	archStats map[string]map[string]int
 	Stats map[string]int
 	Notes []string
 	// Floors: rule -> minimum number of obligations that rule must have produced (vacuity guard)
@@ -45,6 +50,9 @@ func newCheck(id string) *Check {
 
 func (c *Check) add(rule, construct string, ok bool, pos, detail string) {
 	key := rule + ":" + construct
+	if !ok && len(c.Archs) > 1 {
+		detail = "[GOARCH=" + c.arch + "] " + detail
+	}
 	if o, dup := c.byKey[key]; dup {
 		if !ok && o.OK {
 			o.OK, o.Pos, o.Detail = false, pos, detail
@@ -60,7 +68,26 @@ func (c *Check) add(rule, construct string, ok bool, pos, detail string) {
 
 func (c *Check) ok(rule, construct, pos, detail string)  { c.add(rule, construct, true, pos, detail) }
 func (c *Check) bad(rule, construct, pos, detail string) { c.add(rule, construct, false, pos, detail) }
-func (c *Check) note(format string, a ...any)            { c.Notes = append(c.Notes, fmt.Sprintf(format, a...)) }
+func (c *Check) note(format string, a ...any) {
+	n := fmt.Sprintf(format, a...)
+	for _, x := range c.Notes {
+		if x == n {
+			return
+		}
+	}
+	c.Notes = append(c.Notes, n)
+}
+
+// beginArch starts the analysis of one more program (architecture); statistics are kept per program.
+func (c *Check) beginArch(arch string) {
+	if c.archStats == nil {
+		c.archStats = map[string]map[string]int{}
+	}
+	c.arch = arch
+	c.Archs = append(c.Archs, arch)
+	c.Stats = map[string]int{}
+	c.archStats[arch] = c.Stats
+}
 func (c *Check) floor(rule string, n int)                { c.floors[rule] = n }
 func (c *Check) stat(name string, n int)                 { c.Stats[name] += n }
 
@@ -153,6 +180,8 @@ func (c *Check) finish(o runOpts) int {
 	for _, r := range rules {
 		fmt.Printf("   rule %-22s %4d obligations\n", r, perRule[r])
 	}
+	fmt.Printf("   programs analysed: GOARCH=%s\n", strings.Join(c.Archs, ","))
+	c.Stats = c.archStats[c.Archs[0]]
 	for _, k := range sortedKeys(c.Stats) {
 		fmt.Printf("   stat %-30s %d\n", k, c.Stats[k])
 	}
@@ -240,7 +269,8 @@ func (c *Check) writeEvidence(o runOpts, discharged, nviol int, knownHit []*Ob) 
 		"samples":             samples,
 		"exhaustive":          c.Exhaustive,
 		"known_findings":      len(knownHit),
-		"stats":               c.Stats,
+		"stats":               c.archStats[c.Archs[0]],
+		"architectures":       c.Archs,
 		"notes":               c.Notes,
 	}
 	perRule := map[string]int{}
@@ -248,6 +278,9 @@ func (c *Check) writeEvidence(o runOpts, discharged, nviol int, knownHit []*Ob) 
 		perRule[ob.Rule]++
 	}
 	cov["obligations_per_rule"] = perRule
+	if len(c.Archs) > 1 {
+		cov["stats_per_architecture"] = c.archStats
+	}
 	var kf []string
 	for _, ob := range knownHit {
 		kf = append(kf, ob.Key)
